@@ -94,7 +94,7 @@ def tree_hash():
         for name in sorted(os.listdir(d)):
             with open(os.path.join(d, name), "rb") as fh:
                 h.update(name.encode() + b"\0" + hashlib.sha256(fh.read()).digest())
-    for src in ("driver/src/main.rs", "analyzer/src/main.rs", "vlib/artifacts.py"):
+    for src in ("driver/src/main.rs", "analyzer/src/main.rs", "vlib/artifacts.py", "vlib/enumerator.py"):
         p = os.path.join(VERIF, src)
         if os.path.exists(p):
             with open(p, "rb") as fh:
